@@ -34,6 +34,7 @@ func runC05(p *core.Program, r *core.Report) {
 	r.Floor("R5", 1)
 	universeWriteScan(p, r, "R5", nil)
 	c05R6(p, r, pl)
+	c05R7(p, r)
 }
 
 // genLoop finds the loop over the variadic generators parameter in the per-package function.
@@ -807,5 +808,55 @@ func c05R6(p *core.Program, r *core.Report, pl *pipeline) {
 	})
 	if n == 0 {
 		r.OK(rule, f, "the per-package function stores into no map", f.Node().Pos(), "nothing to carry over")
+	}
+}
+
+// c05R7: the arguments of a run are shared by every package of the run and read where each package starts (the prefix
+// of its previous output) and where it ends (the file name). Nothing in the library assigns a field of the arguments:
+// a default filled in on first use is seen by the packages processed later and not by the first.
+func c05R7(p *core.Program, r *core.Report) {
+	const rule = "R7"
+	r.Floor(rule, 1)
+	n := 0
+	isArgsField := func(info *types.Info, e ast.Expr) bool {
+		fld := core.FieldOf(info, e)
+		if fld == nil {
+			return false
+		}
+		own := ownerOf(fld)
+		return own != nil && own.Pkg() != nil && core.RelPkg(own.Pkg().Path()) == "pkg/gengo" && own.Name() == "GeneratorArgs"
+	}
+	for _, f := range p.Funcs() {
+		if f.Body == nil {
+			continue
+		}
+		info := f.Info()
+		ast.Inspect(f.Body, func(m ast.Node) bool {
+			if lit, ok := m.(*ast.FuncLit); ok && lit != f.Lit {
+				return false
+			}
+			switch x := m.(type) {
+			case *ast.AssignStmt:
+				for _, l := range x.Lhs {
+					base := ast.Unparen(l)
+					if ix, isIx := base.(*ast.IndexExpr); isIx {
+						base = ix.X
+					}
+					if isArgsField(info, base) {
+						n++
+						r.Bad(rule, f, "the run's arguments are written: "+core.ExprStr(x), x.Pos(), "a field of the shared GeneratorArgs is assigned while packages are processed: the packages handled before the assignment ran with another value than the ones after it (e.g. a default output base name that appears only after the first file name was built: the stale-file scan of the first package used the empty prefix)")
+					}
+				}
+			case *ast.IncDecStmt:
+				if isArgsField(info, x.X) {
+					n++
+					r.Bad(rule, f, "the run's arguments are written: "+core.ExprStr(x), x.Pos(), "a field of the shared GeneratorArgs is changed while packages are processed")
+				}
+			}
+			return true
+		})
+	}
+	if n == 0 {
+		r.OK(rule, nil, "nothing in the library assigns a field of the run's arguments", token.NoPos, "GeneratorArgs is read-only after NewContext")
 	}
 }
